@@ -286,6 +286,7 @@ def replay_doc(prop, seed, stream, run, case, decisions, classes, details,
 
 def case_from_doc(doc):
     return {"recipe": doc["recipe"], "cfg": doc["sim_config"],
+            "mode": doc.get("mode", "threads"), "configs": doc.get("configs"),
             "iterations": doc.get("iterations", 1),
             "real_codegen": doc.get("real_codegen", False),
             "faults": doc.get("faults", []),
